@@ -360,6 +360,16 @@ pub fn jobs(prop: &str, tier: &str) -> Vec<Box<dyn JobT>> {
             j.push(job::<Li>(no_sym(plan_cfg::<Li>("dup", q, true, Disc::Causal, false)), DupStale));
             j.push(job::<Mk>(merkle_dags(if q { 4 } else { 5 }, true), DupStale));
             if !q {
+                // four concurrent writers of one member / one key (seeds C09-5, C09-6 need 4 actors and 5 ops)
+                let mut c4 = or_tiny("dup+stale", 5);
+                c4.actors = 4;
+                c4.label = "orswot dup+stale tiny alphabet (add / rm of one member), 4 actors, Fifo+merge n<=5".into();
+                j.push(job::<Or>(c4, DupStale));
+                let mut m4 = map_one_key("dup+stale", 5, Disc::Causal, true);
+                m4.actors = 4;
+                m4.cmds = vec![cmd(mo::ADD, 0, 0), cmd(mo::ADD, 0, 1), cmd(mo::RM_KEY, 0, 0)];
+                m4.label = "map_orswot dup+stale tiny alphabet (one key, two members), 4 actors, Causal+merge n<=5".into();
+                j.push(job::<MapOr>(m4, DupStale));
                 j.push(job::<Or>(deep_cfg::<Or>("dup+stale", 5, Disc::Fifo, true), DupStale));
             }
         }
